@@ -146,4 +146,55 @@ example : parseRequestLine {} (b!"GET /a?b=c HTTP/1.1") =
       protocolNumber := parseProtocol (b!"HTTP/1.1") } :=
   C02_request_line_roundtrip {} (b!"GET") (b!"/a?b=c") (b!"HTTP/1.1") rfl rfl (by decide) (by decide) (by decide) (by decide) (by decide) (by decide)
 
+/-- **C02 (status line)**: a status line `protocol SP status SP reason` whose protocol and status contain no white space and whose reason
+    phrase starts with a non-blank byte is reported with exactly that protocol, status and reason phrase (the phrase may contain any
+    bytes, spaces included). -/
+theorem C02_response_line_roundtrip (pr st msg : Bytes)
+    (hpr : ∀ b ∈ pr, isSpace b = false) (hprne : pr ≠ [])
+    (hst : ∀ b ∈ st, isSpace b = false) (hstne : st ≠ [])
+    (m0 : UInt8) (mt : Bytes) (hmsg : msg = m0 :: mt) (hm0 : cIsspace m0 = false) :
+    parseResponseLine (pr ++ 0x20 :: (st ++ 0x20 :: msg)) =
+      { protocol := some pr, protocolNumber := parseProtocol pr, status := some st, statusNumber := parseStatus st, message := some msg } := by
+  obtain ⟨p0, pt, hpe⟩ := List.exists_cons_of_ne_nil hprne
+  obtain ⟨s0, stt, hse⟩ := List.exists_cons_of_ne_nil hstne
+  have hp0 : isSpace p0 = false := hpr p0 (by rw [hpe]; simp)
+  have hs0 : isSpace s0 = false := hst s0 (by rw [hse]; simp)
+  generalize hD : pr ++ 0x20 :: (st ++ 0x20 :: msg) = D
+  have hlen : D.length = pr.length + 1 + st.length + 1 + msg.length := by rw [← hD]; simp; omega
+  have e0 : scanFwd (fun c => !isSpace c) D 0 = 0 := by
+    rw [← hD, hpe]; unfold scanFwd; simp [List.takeWhile, hp0]
+  have e1 : scanFwd isSpace D 0 = pr.length := by
+    have := scanFwd_at isSpace D [] pr 0x20 (st ++ 0x20 :: msg) 0 (by rw [← hD]; simp) rfl hpr sp20
+    simpa using this
+  have e2 : scanFwd (fun c => !isSpace c) D pr.length = pr.length + 1 := by
+    exact scanFwd_at (fun c => !isSpace c) D pr [0x20] s0 (stt ++ 0x20 :: msg) pr.length (by rw [← hD, hse]; simp) rfl
+      (by intro b hb; simp at hb; subst hb; simp [sp20]) (by simp [hs0])
+  have e3 : scanFwd isSpace D (pr.length + 1) = pr.length + 1 + st.length := by
+    exact scanFwd_at isSpace D (pr ++ [0x20]) st 0x20 msg (pr.length + 1) (by rw [← hD]; simp) (by simp) hst sp20
+  have e4 : scanFwd (fun c => !cIsspace c) D (pr.length + 1 + st.length) = pr.length + 1 + st.length + 1 := by
+    exact scanFwd_at (fun c => !cIsspace c) D (pr ++ 0x20 :: st) [0x20] m0 mt (pr.length + 1 + st.length) (by rw [← hD, hmsg]; simp) (by simp; omega)
+      (by intro b hb; simp at hb; subst hb; simp [csp20]) (by simp [hm0])
+  have t1 : (D.drop 0).take (pr.length - 0) = pr := by rw [← hD]; simp
+  have t2 : (D.drop (pr.length + 1)).take (pr.length + 1 + st.length - (pr.length + 1)) = st := by
+    have : pr.length + 1 + st.length - (pr.length + 1) = st.length := by omega
+    rw [this, ← hD]
+    have : (pr ++ 0x20 :: (st ++ 0x20 :: msg)).drop (pr.length + 1) = st ++ 0x20 :: msg := by
+      rw [show pr ++ 0x20 :: (st ++ 0x20 :: msg) = (pr ++ [0x20]) ++ (st ++ 0x20 :: msg) by simp]
+      exact List.drop_left' (by simp)
+    rw [this]; simp
+  have t3 : D.drop (pr.length + 1 + st.length + 1) = msg := by
+    rw [← hD, show pr ++ 0x20 :: (st ++ 0x20 :: msg) = (pr ++ 0x20 :: st ++ [0x20]) ++ msg by simp]
+    exact List.drop_left' (by simp; omega)
+  have n0 : (pr.length - 0 == 0) = false := by rw [hpe]; simp
+  have n1 : (pr.length + 1 == pr.length + 1 + st.length + 1 + msg.length) = false := by simp; omega
+  have n2 : (pr.length + 1 + st.length - (pr.length + 1) == 0) = false := by rw [hse]; simp
+  have n3 : (pr.length + 1 + st.length + 1 == pr.length + 1 + st.length + 1 + msg.length) = false := by rw [hmsg]; simp
+  unfold parseResponseLine
+  simp only [e0, e1, e2, e3, e4, t1, t2, t3, hlen, n0, n1, n2, n3, Bool.false_eq_true, if_false]
+
+example : parseResponseLine (b!"HTTP/1.1 404 Not Found") =
+    { protocol := some (b!"HTTP/1.1"), protocolNumber := parseProtocol (b!"HTTP/1.1"), status := some (b!"404"), statusNumber := parseStatus (b!"404"),
+      message := some (b!"Not Found") } :=
+  C02_response_line_roundtrip (b!"HTTP/1.1") (b!"404") (b!"Not Found") (by decide) (by decide) (by decide) (by decide) 0x4e (b!"ot Found") rfl (by decide)
+
 end Htp.C02
